@@ -5,7 +5,7 @@
    every run, not proved.  parse_lines = parse_script after line splitting; llines = the logical lines. *)
 From BS Require Import Model.Base Model.Regex Model.Num Model.ExprParser Model.Script Model.ScriptX Model.Lower
   Gen.Unicode Proofs.ScriptFacts Proofs.C06 Proofs.C10 Proofs.C10ws Proofs.C10wsExpr Proofs.C10wsIndent
-  Proofs.ExprFuel Proofs.C10wsFull Proofs.RegexShiftG Proofs.C10wsIndent2.
+  Proofs.ExprFuel Proofs.C10wsFull Proofs.RegexShiftG Proofs.C10wsIndent2 Proofs.C10wsReturn.
 
 (* ---- LF versus CRLF: both texts have the same lines ---- *)
 Theorem C10_crlf : forall lines, lines <> [] -> Forall no_lf lines -> Forall (fun l => ends_cr l = false) lines ->
@@ -148,10 +148,18 @@ Theorem C10_ws_indent_function_begin : forall ws line, white ws ->
 Proof. exact fn_begin_shift. Qed.
 Print Assumptions C10_ws_indent_function_begin.
 
+(* ---- a bare `return` with ANY indentation and ANY trailing whitespace is the statement `return` (the F19 regression as a
+   theorem about the REGENERATED R_SCRIPT_RETURN: in every derivation the optional expr group is absent, because its first
+   character `\S` would have to be one of the trailing whitespace characters) ---- *)
+Theorem C10_ws_return_bare : forall n ws1 ws2, white ws1 -> white ws2 ->
+  Lower.classify n (ws1 ++ U "return" ++ ws2) = ROk (KReturn None).
+Proof. exact classify_return_bare. Qed.
+Print Assumptions C10_ws_return_bare.
+
 (* C10_ws_tokens_partial — the FULL clause "breaking a line at any point where a space is allowed / changing indentation or
    trailing whitespace yields the same statement" needs whitespace-insensitivity of EVERY statement regex and of the
-   expression lexer at EVERY gap.  PROVED: the keyword-only statements with any indentation and trailing whitespace
-   (C10_ws_keyword_lines, C10_ws_else_gap); a leading whitespace run in front of an expression, no fuel premise
+   expression lexer at EVERY gap.  PROVED: the keyword-only statements and the bare `return` with any indentation and trailing whitespace
+   (C10_ws_keyword_lines, C10_ws_else_gap, C10_ws_return_bare); a leading whitespace run in front of an expression, no fuel premise
    (C10_ws_expression_leading_partial / _err / _ok, C10_expression_fuel_suffices); indentation of EVERY statement kind
    (C10_ws_indentation; C10_ws_indentation_partial is the earlier version without function-begin / jump / jumpif / return).
    NOT proved (oracle only): trailing whitespace and inner gaps of the statements that carry an expression or a name
